@@ -23,6 +23,37 @@ PROPS = {
         "trusted": [],
         "assumptions": ["SupportedRegister discriminants 0..=85 are exactly the 86 variants (checked by c07_base for the 17 64-bit keys)"],
     },
+    "C08": {
+        "bounds": "one memory-API call from an arbitrary layout of two disjoint RW areas (8 and 5 bytes; starts anywhere in the 64-bit "
+                  "space incl. 0 and ending exactly at 2^64; arbitrary contents): all 2^64 addresses x all 2^64 lengths for reads, data of "
+                  "0..=16 arbitrary bytes for writes, all five typed widths with arbitrary values; histories follow by induction over the "
+                  "byte map; unwind 20; collect_mem_error_hints is NOT stubbed (its arithmetic is part of the claim)",
+        "outside": "layouts with more than two areas or other area sizes (the code treats areas uniformly: a linear find over the list); "
+                   "zero-length accesses are only required not to crash; guest loads/stores are covered by the C01 memory-shape harnesses",
+        "trusted": ["stub: str::to_lowercase -> String::new() (message text only)"],
+        "assumptions": ["area list invariant M: areas pairwise disjoint, length == data.len(), start + length <= 2^64 (established by C10)"],
+    },
+    "C09": {
+        "bounds": "API level: arbitrary layout of two disjoint areas (8 and 5 bytes, arbitrary starts and contents) with all 8x8 permission "
+                  "masks; one read (any address, any length), write (1..=8 bytes, any address) or fetch (any address); mem_prot followed by "
+                  "read/write/fetch; constructor Axecutor::new with 4 arbitrary code bytes at any start. Instruction level: every memory-"
+                  "touching instruction class once with an arbitrary mask on its operand area (insn harnesses tagged C09)",
+        "outside": "ELF segment flags (C15); iced's decoder after the fetch (decode_at = fetch + Decoder)",
+        "trusted": ["stub: collect_mem_error_hints -> fixed error (message text only)"],
+        "assumptions": ["area list invariant M (C10)"],
+    },
+    "C10": {
+        "bounds": "one area-management call from an arbitrary list of 0..=3 areas (8, 5, 3 bytes; arbitrary disjoint starts incl. ending at 2^64; "
+                  "arbitrary contents and masks) satisfying M: mem_init_area_named (data 0..=16 bytes, any start), mem_init_zero(_named) "
+                  "(length <= 16), mem_resize_section (any start, new <= 16), mem_prot (any start, any u32 mask), mem_init_zero_anywhere / "
+                  "mem_init_anywhere (length <= 8, incl. 0), init_stack (length <= 16). Termination of the retry loops is the unwinding "
+                  "assertion with a bound derived from the code (at most 16 blocked candidates for lengths >= 1; 51 doublings for init_stack). "
+                  "Histories of any length follow by induction on M",
+        "outside": "more than 3 pre-existing areas; lengths above 16 (allocation size is the caller's request); ELF load and brk reach these "
+                   "same functions (C13, C15)",
+        "trusted": [],
+        "assumptions": [],
+    },
 }
 
 
